@@ -6,6 +6,7 @@ C09.3  every kind of import that can be re-exported by name is re-exported (no a
 C09.4  lossy name mangling: printed names of distinct types must be checked for collisions
 """
 import re
+import importlib
 from facts import walk, walk_inlined, WASM
 
 LEVEL = "other"
@@ -814,6 +815,9 @@ def run(cx, rep):
     # ---------------------------------------------------------------- C09.19
     rep.rule("C09.19", "a set-once slot (the default export) is set at most once per processed export item")
     set_once_rule(cx, rep, "C09.19")
+    # ---------------------------------------------------------------- C09.22 (= C08.19)
+    rep.rule("C09.22", "a hoist key carries a reference whole (file, name, type arguments), never a printed name: same-named types of two files do not share a hoisted validator")
+    importlib.import_module("rules.c08").hoist_key_faithful_rule(cx, rep, "C09.22")
 
 
 def star_hop_rule(cx, rep, rid):
